@@ -106,6 +106,22 @@ class Celestial(Dynamics, metaclass=ABCMeta):
 
         return events
 
+    @staticmethod
+    def _nextThrustBoundary(initial_time, final_time, events):
+        r"""Earliest start/end of a finite thrust strictly inside ``(initial_time, final_time)``, else `final_time`.
+
+        :class:`.ScheduledFiniteThrust` flags its start and its end by returning zero when the integrator
+        stands exactly on them, so the integration is cut there: the integrator's last step always lands
+        exactly on the end of its interval.
+        """
+        stop_time = final_time
+        for event in events:
+            if isinstance(event, ScheduledFiniteThrust):
+                for boundary in (event.start_time, event.end_time):
+                    if initial_time < boundary < stop_time:
+                        stop_time = boundary
+        return stop_time
+
     def _applyEvents(
         self,
         t_events: ndarray,
@@ -184,7 +200,7 @@ class Celestial(Dynamics, metaclass=ABCMeta):
         while initial_time < final_time:
             solution = solve_ivp(
                 partial(self._differentialEquation, check_collision=check_collision),
-                (initial_time, final_time),
+                (initial_time, self._nextThrustBoundary(initial_time, final_time, events)),
                 initial_state.ravel(),
                 method=self._method,
                 rtol=self.RELATIVE_TOL,
